@@ -113,12 +113,15 @@ func observe(t fataler, src string, ast *js.AST) ([]string, map[string]int, stri
 	return seq, uses, out
 }
 
-var shortDefaultRe = regexp.MustCompile(`\b[a-fz]: [a-fz] = `)
-var poolRe = regexp.MustCompile(`^[a-fz]$`) // the name pool and the name that is bound nowhere
+var shortDefaultRe = regexp.MustCompile(`\b([a-fz]|event|undefined|eval|window|self|globalThis|name): ([a-fz]|event|undefined|eval|window|self|globalThis|name) = `)
+var poolRe = regexp.MustCompile(`^([a-fz]|event|undefined|eval|window|self|globalThis|name)$`) // the name pool and the name that is bound nowhere
+
+// opts: the Options under which the programs of the current case are parsed (scoping is the same under all of them)
+var opts js.Options
 
 func checkProgram(t fataler, prog []node) (*resolver, string) {
 	src, short := sourceShort(prog)
-	ast, err := js.Parse(parse.NewInputString(src), js.Options{})
+	ast, err := js.Parse(parse.NewInputString(src), opts)
 	if err != nil {
 		t.Fatalf("generated program rejected:\n%s\n%v", src, err)
 	}
@@ -165,7 +168,7 @@ func checkProgram(t fataler, prog []node) (*resolver, string) {
 		}
 	}
 	// the renamed program is itself a valid program
-	if _, err := js.Parse(parse.NewInputString(out), js.Options{}); err != nil {
+	if _, err := js.Parse(parse.NewInputString(out), opts); err != nil {
 		t.Fatalf("program:\n%s\nthe renamed program is rejected:\n%s\n%v", src, out, err)
 	}
 	// alpha-equivalence in full: with every fresh name replaced by the name the occurrence had, the renamed text is the
@@ -198,14 +201,14 @@ func checkProgram(t fataler, prog []node) (*resolver, string) {
 	// {a: D0 = 1}; with the name put back that reads {a: a = 1}, which is the same property written in full (keys of the
 	// name pool only come from shorthand properties, the generator's own keys are p and q)
 	backText := shortDefaultRe.ReplaceAllStringFunc(back.String(), func(m string) string {
-		if m[0] == m[3] {
-			return m[3:]
+		if i := strings.Index(m, ": "); m[:i] == m[i+2:len(m)-3] {
+			return m[i+2:]
 		}
 		return m
 	})
 	back.Reset()
 	back.WriteString(backText)
-	ast2, err := js.Parse(parse.NewInputString(back.String()), js.Options{})
+	ast2, err := js.Parse(parse.NewInputString(back.String()), opts)
 	if err != nil {
 		t.Fatalf("program:\n%s\nrenamed:\n%s\nwith the original names put back it is rejected:\n%s\n%v", src, out, back.String(), err)
 	}
@@ -226,6 +229,29 @@ func TestProp_Scoping(t *testing.T) {
 		prog := g.stmtList(rapid.IntRange(1, 5).Draw(t, "nstmts"), true)
 		if len(prog) == 0 {
 			prog = []node{&exprStmt{e: g.ref()}}
+		}
+		if rapid.IntRange(0, 149).Draw(t, "deeprefs") == 0 {
+			// one case in 150 ends in a nest of 20-160 scopes with a reference in each
+			prog = append(prog, g.deepRefs())
+		}
+		opts = js.Options{Inline: rapid.IntRange(0, 3).Draw(t, "inline") == 0}
+		defer func() { opts = js.Options{} }()
+		if !opts.Inline {
+			// a module: declarations at the top level may be exported
+			for _, st := range prog {
+				if rapid.IntRange(0, 3).Draw(t, "export") != 0 {
+					continue
+				}
+				switch x := st.(type) {
+				case *varDecl:
+					x.export = true
+				case *funcDecl:
+					x.export = true
+				case *classDec:
+					x.export = true
+				}
+				g.classes["export"]++
+			}
 		}
 		if rapid.IntRange(0, 3).Draw(t, "failedparse") == 0 {
 			// an earlier call that failed in the middle of a construct leaves nothing behind: a proper prefix of this
